@@ -189,7 +189,7 @@ Definition hash64 (l : list Z) : Z := fold_left (fun h c => Z.lxor (xs64 h) c) l
 Fixpoint wire_eqb (model : list Z) (w : wire) : bool :=
   match w with
   | WLit l => zlist_eqb model l
-  | WHash n h => (len model =? n) && (hash64 model =? h)
+  | WHash n h => if len model =? n then hash64 model =? h else false    (* the digest only when the length agrees *)
   | WDns w' _ => wire_eqb model w'
   end.
 
@@ -240,7 +240,15 @@ Inductive case : Type :=
 | CStack (ws : list elem) (p : pay) (w : wire)
 | CTrans (t : tr) (p : pay) (w : wire)
 | CFull (ws : list elem) (t : tr) (p : pay) (w : wire)        (* p = the bytes of Packet.Marshal *)
-| CBlock (offs : list Z) (gh : list (Z * Z)) (blk enc dec2 : list Z).
+| CBlock (offs : list Z) (gh : list (Z * Z)) (blk enc dec2 : list Z)
+(* the CBK writer driven by the Write calls the harness made: ks = the length of every call *)
+| CCbkW (size : Z) (offs : list Z) (items : list (list Z * list (Z * Z))) (p : pay) (ks : list Z) (w : wire).
+
+Fixpoint split_by (ks : list Z) (x : list Z) : list (list Z) :=
+  match ks with
+  | [] => []
+  | k :: r => take k x :: split_by r (drop k x)
+  end.
 
 Definition check (c : case) : bool :=
   match c with
@@ -258,6 +266,8 @@ Definition check (c : case) : bool :=
     tr_enc_ok t m w && tr_roundtrip_ok t m w && res_eqb zlist_eqb (unwrap_stack ws m) (Ok x)
   | CBlock offs gh blk enc dec2 =>
     zlist_eqb (blk_encrypt offs (steps_of gh) blk) enc && zlist_eqb (blk_decrypt offs (steps_of gh) blk) dec2
+  | CCbkW size offs items p ks w =>
+    wire_eqb (cbk_run (Z.to_nat size) offs (consts_of items) (split_by ks (pay_bytes p))) w
   end.
 
 (* ---- the send and receive paths (c2.writePacket / c2.readPacket) -------------------------------- *)
